@@ -129,8 +129,15 @@ def replay_goal(case: Case, values, goal_name):
             holds = bool(r)
             return {"reached": True, "reproduced": not holds, "detail": getattr(r, "detail", ""),
                     "margin": getattr(r, "margin", None), "exc": repr(exc) if exc else None}
-    return {"reached": False, "reproduced": False, "detail": "goal not reached in concrete run",
-            "exc": repr(exc) if exc else None, "exc_type": type(exc).__name__ if exc else None}
+    rp = {"reached": False, "reproduced": False, "detail": "goal not reached in concrete run",
+          "exc": repr(exc) if exc else None, "exc_type": type(exc).__name__ if exc else None}
+    if exc is not None and not isinstance(exc, case.expect_exc):
+        # The symbolic execution reached this obligation with a value that violates it; on the same inputs (inside the declared
+        # domain) the real code raises from a frame of the code under test before the obligation is reached.  The real code does
+        # not deliver the value the property speaks of: `raised_in_repo` lets an exact solver model count as a witness.
+        frames = traceback.extract_tb(exc.__traceback__)
+        rp["raised_in_repo"] = any("/pfhedge/" in f.filename for f in frames)
+    return rp
 
 
 def _solve_goal(case, hyps, goal_term, timeout=None):
@@ -353,6 +360,11 @@ def _handle_sat(case, hyps, g, r, relaxed=False):
         rp = replay_goal(case, vals, g.name)
         last = (vals, rp)
         if rp["reproduced"] and (i < n_exact or robust(rp)):
+            return {"status": "violated", "model": vals, "replay": rp}
+        if i < n_exact and rp.get("raised_in_repo") and not relaxed:
+            rp["reproduced"] = True
+            rp["detail"] = ("the real code raises %s on the solver's counterexample (symbolic execution returns a value that violates the "
+                            "obligation there)" % rp["exc"])
             return {"status": "violated", "model": vals, "replay": rp}
     # Last resort before calling the solver's counterexample spurious (its values for the abstracted special functions
     # need not be realisable): look for a real witness near the solver's models by random perturbation, keeping signs.
